@@ -90,6 +90,8 @@ def framing(check, P):
             lam = a[0] if a else None
             xor = isinstance(lam, Closure) and isinstance(lam.node, ast.Lambda) and isinstance(lam.node.body, ast.BinOp) and isinstance(lam.node.body.op, ast.BitXor) \
                 and {getattr(lam.node.body.left, "id", None), getattr(lam.node.body.right, "id", None)} == {x.arg for x in lam.node.args.args}
+            # the same fold spelled with the standard library: operator.xor / operator.__xor__ / int.__xor__
+            xor = xor or (isinstance(lam, ExtV) and lam.name in ("operator.xor", "operator.__xor__", "int.__xor__"))
             src = I.tag(a[1]) if len(a) > 1 else ""
             prefix_tag = I.tag(Str(tuple(parts[:4])))
             over_prefix = src == f"map(Ext(ord), {prefix_tag})" or src == f"map(Ext(ord),{prefix_tag})"
